@@ -189,10 +189,11 @@ func extractTarDirectory(dirPath, dirName string, r io.Reader, buf []byte, prese
 			return err
 		}
 		filePath := filepath.Join(dirPath, filePathRel)
-		if filePathRel == "." && (header.Typeflag == tar.TypeLink || header.Typeflag == tar.TypeSymlink) {
+		if filePathRel == "." && (header.Typeflag == tar.TypeLink || header.Typeflag == tar.TypeSymlink || header.Typeflag == tar.TypeReg) {
 			// a link named like the base directory would remove the (empty)
-			// base directory and put a link in its place
-			return fmt.Errorf("%q: a link cannot replace the base directory %q", filename, dirName)
+			// base directory and put a link in its place; a regular file
+			// would replace a base directory that is a symbolic link
+			return fmt.Errorf("%q: a file or link cannot replace the base directory %q", filename, dirName)
 		}
 
 		// Create content
